@@ -527,8 +527,11 @@ pub fn check_set(ctx: &mut Ctx, c: &SetCase) -> R {
             // the two entries may differ by a few units in the last place at most — not by the rounding error of the
             // expansion, which grows with (x/l)^2: an asymmetry of that size already makes `is_symmetric` /
             // `cholesky` reject the matrix
-            let tol = 4.0 * EPS * p.abs().max(q.abs()) + TINY;
-            ctx.worst("gram: |K_ij - K_ji| / (4 eps max|K|)", (p - q).abs() / tol);
+            // (1 + |ln(K/var)|: one rounding of the exponent's argument moves exp by that many units in the last place)
+            let kmax = p.abs().max(q.abs());
+            let lg = if kmax > 0.0 && c.var > 0.0 { (kmax / c.var).ln().abs() } else { 0.0 };
+            let tol = 4.0 * EPS * (1.0 + lg) * kmax + TINY;
+            ctx.worst("gram: |K_ij - K_ji| / (4 eps (1 + |ln(K/var)|) max|K|)", (p - q).abs() / tol);
             ensure!(
                 (p - q).abs() <= tol,
                 format!("C20/{}/gram/symmetric", kn),
